@@ -7,8 +7,10 @@ the `locks` driver checks on the recorded lock events of every concurrent run); 
 control skeleton of EVERY function of nfs/, dir/ and shrinker/ — REGENERATED from the source on
 every run — no path uses an inode variable after the commit or abort that released its lock
 (path-sensitive abstract execution, decided by the kernel).  Outside: the Go memory model
-itself, accesses the extractor does not see as inode-variable uses (fields of FsState,
-ShrinkerSt, stats — guarded by their own mutexes/atomics), go-journal's internals.  As search
+itself, accesses the extractor does not see as inode-variable uses (fields of FsState, stats),
+go-journal's internals; (3) the structs with their own mutex (cache.Cache, shrinker.ShrinkerSt)
+access the fields that mutex guards only while holding it (`mutex_fields_under_mutex`, same
+regenerated-skeleton technique).  As search
 support the thorough tier runs the concurrent harness under the Go race detector.
 -/
 import GoNfsd.Gen.Skeleton
@@ -32,6 +34,23 @@ theorem lockset_race_free (acq1 rel1 acq2 rel2 a1 a2 : Nat)
     from the current source. -/
 theorem handlers_use_under_lock :
     ∀ h ∈ GoNfsd.Gen.Skeleton.handlers, check h.2 = true := by decide +kernel
+
+/-- Every struct of the module that carries its own mutex (`cache.Cache`, `shrinker.ShrinkerSt`)
+    touches the fields the mutex guards — maps, lists, and every field some method assigns — only
+    while the mutex is held: on no path of any method is a guarded field read or written before
+    `mu.Lock()`, after `mu.Unlock()`, or in a method that neither locks nor is called under the
+    lock.  Decided on the skeletons regenerated from the current source. -/
+theorem mutex_fields_under_mutex :
+    ∀ h ∈ GoNfsd.Gen.Skeleton.mutexHandlers, check h.2 = true := by decide +kernel
+
+/-- the table is not empty, and it does contain guarded fields -/
+theorem mutex_table_nonempty :
+    0 < GoNfsd.Gen.Skeleton.mutexHandlers.length ∧
+    0 < (GoNfsd.Gen.Skeleton.mutexGuardedFields.map (·.2.length)).sum := by decide
+
+/-- non-vacuity: a read of a guarded field before the lock is taken is rejected -/
+example : check ([], .seq [.acq "mu", .fin, .seq [.branch [.seq [.use "mu", .ret], .seq []], .acq "mu", .use "mu", .fin]]) = false := by
+  decide +kernel
 
 /-- The extractor classified every statement it saw (an unknown construct is a translator
     failure, never a silent skip). -/
